@@ -122,6 +122,26 @@ CHECKS = {
         note=TRUST + 'email.message_from_string is environment code: modelled (Model/Email.v), validated by co-execution, not verified.',
         technique='Rocq proof (partial) + differential co-execution against the Python code and the stdlib email parser',
     ),
+    'C09': dict(
+        ref='5.9',
+        text='Theorems in coq/Properties/C09.v (partial): classification by names (Format/Format-Specification, else Files, '
+             'else License, else catch-all); for every document of the deb822 grammar of C06 whose paragraphs classify as '
+             'header/files/license the copyright object has exactly one paragraph per document paragraph, in order, of that '
+             'type, and no recovery rewrite applies; for a paragraph without repeated names every field with a value is kept '
+             'under its own name with its line range, the known names of the paragraph type typed by their converter applied '
+             'to the text found, all other names as extra data; the copyright statement converter is characterised for EVERY '
+             'value (whitespace runs collapse, first word is the year range iff it passes the year-range test, rest is the '
+             'holder); file patterns are the whitespace-separated words; license = trimmed first line + decoded continuation '
+             'lines (decoding itself: C20); no files paragraph => not valid (strict or not); one header + >=1 files paragraph, '
+             'all valid => valid; a files paragraph with files, copyright and license name is valid. NOT proved: the typed '
+             'values for paragraphs WITH repeated names or recovery rewrites (C11/C12), the year-range test itself is a '
+             'definition of the model (str.isdigit table swept each run). The complete model is co-executed with copyright.py on '
+             'generated DEP-5 documents (random field order, layouts, both spellings, extra fields, corrupted variants), '
+             'all strings of length <=4/5 over 9 characters through is_year_range, statement texts, and the executable '
+             'statement compares the object with the generating document on every case.',
+        note=TRUST + 'Modelled, not verified: str.isdigit/str.split/string.punctuation tables.',
+        technique='Rocq proof (partial) over a Gallina model + differential co-execution against the Python code',
+    ),
     'C10': dict(
         ref='5.10',
         text='Theorems in coq/Properties/C10.v (partial): every range recorded when a paragraph is built is (first line with '
